@@ -809,6 +809,21 @@ func gen(r *hx.Rng, n int, tier string) []string {
 		return g, true
 	}
 
+	// directed: handles built through keyset.Manager holding an ML-DSA key written
+	// with OutputPrefixType WITH_ID_REQUIREMENT (alone, as primary, among others),
+	// keys generated by the Manager itself, and that prefix on other key types
+	for mode := 0; mode < 3; mode++ {
+		if l, ok := genManagerHandle(r, mode, tier); ok {
+			add(l)
+		}
+	}
+	if l, ok := genFromParametersHandle(r); ok {
+		add(l)
+	}
+	for _, l := range genPrefix5Elsewhere(r, c, makeKey) {
+		add(l)
+	}
+
 	i := 0
 	for len(lines) < n {
 		i++
@@ -949,6 +964,18 @@ func gen(r *hx.Rng, n int, tier string) []string {
 				add(fmt.Sprintf("W|%s|%s|%s|%s", tag, name, schemaOf(md), hx.H(b)))
 			}
 		default: // keysets
+			if r.Chance(8) {
+				if l, ok := genManagerHandle(r, r.Intn(3), tier); ok {
+					add(l)
+				}
+				continue
+			}
+			if r.Chance(2) {
+				if l, ok := genFromParametersHandle(r); ok {
+					add(l)
+				}
+				continue
+			}
 			if l, ok := genHandle(r, c, makeKey, tier); ok {
 				add(l)
 			}
@@ -1067,6 +1094,11 @@ func genHandle(r *hx.Rng, c *catalogue, makeKey func(string, uint32) (genKey, bo
 		}
 		ents[i] = strings.Join(e, "~")
 	}
+	return handleLine(r, "H", tag, primary, ents, schemas, pubs), true
+}
+
+// handleLine: kind|tag|kek kind|kek|ad|tape|primary|entries|schemas|puburls
+func handleLine(r *hx.Rng, kind, tag string, primary uint32, ents []string, schemas, pubs map[string]string) string {
 	keks := []string{"gcm", "gcm", "gcm", "gcmsiv", "xchacha", "chacha", "keyset"}
 	kk := hx.PickS(r, keks)
 	kb := r.Bytes(32)
@@ -1083,6 +1115,6 @@ func genHandle(r *hx.Rng, c *catalogue, makeKey func(string, uint32) (genKey, bo
 	}
 	sort.Strings(ss)
 	sort.Strings(ps)
-	return fmt.Sprintf("H|%s|%s|%s|%s|%s|%d|%s|%s|%s", tag, kk, hx.H(kb), hx.H(ad), hx.H(r.Bytes(32)), primary,
-		strings.Join(ents, ";"), strings.Join(ss, ";"), strings.Join(ps, ";")), true
+	return fmt.Sprintf("%s|%s|%s|%s|%s|%s|%d|%s|%s|%s", kind, tag, kk, hx.H(kb), hx.H(ad), hx.H(r.Bytes(32)), primary,
+		strings.Join(ents, ";"), strings.Join(ss, ";"), strings.Join(ps, ";"))
 }
